@@ -25,6 +25,7 @@ type Cfg struct {
 	Silent int    `json:"silent"` // index (1-based) of a router that generates no ICMP, 0 = none
 	First  int    `json:"first_ttl"`
 	Concur int    `json:"concurrent"` // invocations at once (same topology)
+	Max    int    `json:"max_ttl,omitempty"` // 0 = 8
 	E2e    int    `json:"e2e"`
 	V6     bool   `json:"ipv6"`
 }
@@ -33,6 +34,9 @@ func (c Cfg) class() string {
 	fam := ""
 	if c.V6 {
 		fam = "/ipv6"
+	}
+	if c.Max > 0 {
+		fam += fmt.Sprintf("/max-ttl-%d", c.Max)
 	}
 	return fmt.Sprintf("len%d/%s-%s/port-%s/silent-%d/first-%d/x%d%s", c.Len, c.Proto, c.Method, c.Port, c.Silent, c.First, c.Concur, fam)
 }
@@ -66,6 +70,8 @@ func configs(tier string) []Cfg {
 					out = append(out, Cfg{Len: l, Proto: v.p, Method: v.m, Port: "open", Silent: s, First: 1, Concur: 1})
 				}
 				out = append(out, Cfg{Len: l, Proto: v.p, Method: v.m, Port: "open", First: 2, Concur: 1})
+				// the last TTL is exactly the destination's distance: the probe with TTL = max TTL is the one that counts
+				out = append(out, Cfg{Len: l, Proto: v.p, Method: v.m, Port: "open", First: 1, Concur: 1, Max: l + 1})
 				// the very first probe already reaches the destination
 				out = append(out, Cfg{Len: l, Proto: v.p, Method: v.m, Port: "open", First: l + 1, Concur: 1})
 			}
@@ -81,6 +87,13 @@ func configs(tier string) []Cfg {
 		out = append(out, Cfg{Len: l, Proto: "mix-tcp", Port: "open", First: 1, Concur: 3})
 	}
 	return out
+}
+
+func maxOf(c Cfg) string {
+	if c.Max > 0 {
+		return fmt.Sprint(c.Max)
+	}
+	return "8"
 }
 
 func sh(timeout time.Duration, name string, args ...string) (string, string, error) {
@@ -252,9 +265,9 @@ func invoke(l *lab, c Cfg, proto, method string) (*doc, string, error) {
 	src := l.ns[0]
 	var args []string
 	if c.First > 1 {
-		args = []string{"netns", "exec", src, os.Getenv("VERIF_C13_DRV"), "-proto", proto, "-method", method, "-port", port, "-min", fmt.Sprint(c.First), "-max", "8", "-timeout", "1000", "-q", "1", "-e2e", fmt.Sprint(c.E2e), dstAddr}
+		args = []string{"netns", "exec", src, os.Getenv("VERIF_C13_DRV"), "-proto", proto, "-method", method, "-port", port, "-min", fmt.Sprint(c.First), "-max", maxOf(c), "-timeout", "1000", "-q", "1", "-e2e", fmt.Sprint(c.E2e), dstAddr}
 	} else {
-		args = []string{"netns", "exec", src, os.Getenv("VERIF_C13_CLI"), "-P", proto, "-p", port, "-q", "1", "-Q", fmt.Sprint(c.E2e), "-m", "8", "--timeout", "1000"}
+		args = []string{"netns", "exec", src, os.Getenv("VERIF_C13_CLI"), "-P", proto, "-p", port, "-q", "1", "-Q", fmt.Sprint(c.E2e), "-m", maxOf(c), "--timeout", "1000"}
 		if proto == "tcp" {
 			args = append(args, "--tcp-method", method)
 		}
